@@ -378,4 +378,57 @@ theorem eval_good (g : SP d) (tab : Img R d → Img R d) (htab : ∀ A, (tab A).
 
 end Main
 
+/-! ### well-typedness is invariant under the group -/
+
+/-- the type of a transformed image: extents and flags travel with the axes -/
+def Ty.act (g : SP d) (t : Ty d) : Ty d :=
+  ⟨fun i => t.dims (g.σ i), t.k, t.p, fun i => t.torus (g.σ i)⟩
+
+theorem fnEq_comp {α : Type} [DecidableEq α] (g : SP d) (a b : Fin d → α) :
+    fnEq (fun i => a (g.σ i)) (fun i => b (g.σ i)) = fnEq a b := by
+  rw [Bool.eq_iff_iff, fnEq_iff, fnEq_iff]
+  constructor
+  · intro h
+    funext j
+    have := congrFun h (g.σ.symm j)
+    simpa using this
+  · intro h; rw [h]
+
+theorem all_comp (g : SP d) (P : Fin d → Bool) :
+    (List.finRange d).all (fun i => P (g.σ i)) = (List.finRange d).all P := by
+  rw [Bool.eq_iff_iff]
+  simp only [List.all_eq_true, List.mem_finRange, forall_const]
+  constructor
+  · intro h j
+    have := h (g.σ.symm j)
+    simpa using this
+  · intro h i; exact h _
+
+/-- **well-typedness is invariant under the group**: the checker accepts the tree on transformed
+leaves iff it accepts it on the original ones, with the transformed type -/
+theorem tyOf_act (g : SP d) (sig : Nat → Ty d) (e : Expr R) :
+    tyOf (fun i => (sig i).act g) e = (tyOf sig e).map (Ty.act g) := by
+  induction e with
+  | leaf i => rfl
+  | add a b iha ihb | sub a b iha ihb =>
+    simp only [tyOf, iha, ihb]
+    cases tyOf sig a <;> cases tyOf sig b <;> simp [Ty.act, fnEq_comp]
+  | smul c a iha =>
+    simp only [tyOf, iha]
+    cases tyOf sig a <;> simp [Ty.act]
+  | mul a b iha ihb =>
+    simp only [tyOf, iha, ihb]
+    cases tyOf sig a <;> cases tyOf sig b <;> simp [Ty.act, fnEq_comp]
+  | transpose π a iha | contract i j a iha | multicontract ps a iha | leviCivita idxs a iha =>
+    simp only [tyOf, iha]
+    cases tyOf sig a <;> simp [Ty.act]
+  | norm a iha =>
+    simp only [tyOf, iha]
+    cases tyOf sig a <;> simp [Ty.act]
+  | conv a f iha =>
+    simp only [tyOf, iha]
+    have hall : (∀ x : Fin d, (sig f).dims (g.σ x) % 2 = 1) ↔ (∀ x : Fin d, (sig f).dims x % 2 = 1) :=
+      ⟨fun h j => by simpa using h (g.σ.symm j), fun h i => h _⟩
+    cases tyOf sig a <;> simp [Ty.act, hall]
+
 end GinjaxVerif.C05
